@@ -111,7 +111,6 @@ func newScopeRegistryWithShardCount(
 }
 
 func (r *scopeRegistry) Report(reporter StatsReporter) {
-	defer r.purgeIfRootClosed()
 	r.reportInternalMetrics()
 
 	for _, subscopeBucket := range r.subscopes {
@@ -139,7 +138,6 @@ func (r *scopeRegistry) Report(reporter StatsReporter) {
 }
 
 func (r *scopeRegistry) CachedReport() {
-	defer r.purgeIfRootClosed()
 	r.reportInternalMetrics()
 
 	for _, subscopeBucket := range r.subscopes {
